@@ -181,3 +181,67 @@ def xmod_program(rng):
     if r.chance(25):
         M.append("xlib.fail(%d);" % r.below(6))
     return "\n".join(M) + "\n", [("xlib", "\n".join(lib) + "\n")]
+
+
+FAILING_CALLS = ["Fiber.yield(l0)", "Fiber.yield()", "Fiber.yield(l0, l1)", "[].pop()", "[1].pop(1)", "\"x\".to_num()", "done_fiber.call()", "done_fiber.call(l0)",
+                 "[1].push()", "[1].push(1, 2)", "\"a\".find(1, 2)", "\"a\".find(\"a\")", "String.from_utf8([255])", "String.from_utf8(l0, l1)", "type()", "type(l0, l1)",
+                 "{}.insert([1], 1)", "{}.insert(1)", "\"s\".replace(1, 2)", "\"s\".replace(\"s\")", "(0..3).iter().next(1)", "[1, 2].iter().next(l0)",
+                 "Fiber.new()", "Fiber.new(1)", "Fiber.new(|a, b| 1)", "\"abc\".split()", "\"abc\".char_byte_index(9)", "String.from_code_points([55296])",
+                 "l0.len()", "l1.nope(l0)", "nil.call()", "[1][l1]", "l0 + l1", "-l1", "l1()", "l1(l0, l0)", "Box2.new()", "Box2.new(1, 2, 3)", "Box2.new(1, 2).m()",
+                 "Box2.new(1, 2).m(1, 2)", "Box2.s(1)", "[3, 4].iter().map(|a, b| a).collect()", "[3, 4].iter().reduce(|a| a, 0)"]
+
+
+def local_integrity_program(rng):
+    """a failing call of every kind (natives with too few / too many / ill-typed arguments, natives that fail after taking
+    their arguments, methods, constructors, lambdas, operators) made directly in the function that owns the try/catch,
+    with locals declared before the try, inside it and after it: the handler and the code after it must find every
+    local intact"""
+    r = rng
+    L = ["#[constructor(new)] class Box2 { fn m(self, a) { return a; } #[static] fn s() { return 1; } }", "class Box2b { #[constructor] fn new(self, a, b) { self.a = a; } }",
+         "var done_fiber = Fiber.new(|| 1); done_fiber.call();"]
+    L[0] = "class Box2 { #[constructor] fn new(self, a, b) { self.a = a; self.b = b; } fn m(self, a) { return a; } #[static] fn s() { return 1; } }"
+    nf = r.range(1, 4)
+    for fi in range(nf):
+        nloc = r.range(2, 6)
+        body = ["fn f%d(p) {" % fi, "    var l0 = [p, \"l0\"];", "    var l1 = \"l1-${p}\";"]
+        for k in range(2, nloc):
+            body.append("    var l%d = %s;" % (k, r.choice(["(p, %d)" % k, "\"s%d\"" % k, "%d" % (k * 11), "|| l0", "[l1]"])))
+        ntry = r.range(1, 3)
+        for t in range(ntry):
+            call = r.choice(FAILING_CALLS)
+            inner = r.chance(40)
+            body.append("    try {")
+            if inner:
+                body.append("        var t%d = \"in-try-%d\";" % (t, t))
+            form = r.below(4)
+            if form == 0:
+                body.append("        %s;" % call)
+            elif form == 1:
+                body.append("        var got%d = %s;" % (t, call))
+            elif form == 2:
+                body.append("        print([\"before\", %s, \"after\"]);" % call)
+            else:
+                body.append("        l0.push(%s);" % call)
+            body.append("        print(\"completed %d\");" % t)
+            body.append("    } catch e {")
+            body.append("        print([type(e), %s]);" % ", ".join("l%d" % k if not False else "" for k in range(min(nloc, 2))))
+            body.append("    }")
+            if r.chance(50):
+                body.append("    var m%d = [\"mid\", l1];" % t)
+                body.append("    print(m%d);" % t)
+        shown = ["l%d" % k for k in range(nloc) if k < 2]
+        body.append("    print([%s]);" % ", ".join(shown))
+        for k in range(2, nloc):
+            body.append("    try { print(type(l%d)); } catch e2 { print(\"broken local\"); }" % k)
+        body.append("    return l0;")
+        body.append("}")
+        L += body
+        L.append("print(f%d(%d));" % (fi, fi + 1))
+    # the same at top level and inside a fiber
+    call = r.choice(FAILING_CALLS)
+    L += ["var l0 = [\"top\"]; var l1 = \"top-l1\";", "{", "    var b0 = \"b0\"; var b1 = [1, 2];",
+          "    try { var x = %s; print(\"completed\"); } catch e { print([type(e), b0, b1]); }" % call, "    var b2 = (b0, b1);", "    print([b0, b1, b2]);", "}"]
+    call = r.choice([c for c in FAILING_CALLS if not c.startswith("Fiber.yield")])
+    L += ["var fbx = Fiber.new(|p| {", "    var l0 = [p]; var l1 = \"in-fiber\";", "    try { print(%s); } catch e { print([type(e), l0, l1]); }" % call,
+          "    var got = Fiber.yield(l0);", "    return [l0, l1, got];", "});", "print(fbx.call(7));", "print(fbx.call(8));"]
+    return "\n".join(L) + "\n"
